@@ -35,3 +35,29 @@ fn vk_wma_reset_fresh<const P: usize, const K: usize>() {
 #[kani::proof] #[kani::unwind(8)] fn vk_wma_reset_fresh_p2() { vk_wma_reset_fresh::<2, 5>() }
 // @harness vk_wma_reset_fresh_p3 props=C04 kind=bounded(period=3,history=7) tier=thorough
 #[kani::proof] #[kani::unwind(10)] fn vk_wma_reset_fresh_p3() { vk_wma_reset_fresh::<3, 7>() }
+
+// derived Clone is a deep copy (any field values): fieldwise bit-equal, distinct buffer allocation, and feeding the clone
+// leaves every slot of the original untouched
+fn vk_wma_clone_deep<const P: usize>() {
+    let a: [f64; P] = kani::any();
+    let index: usize = kani::any();
+    kani::assume(index < P);
+    let count: usize = kani::any();
+    kani::assume(count <= P && (count == P || index == count));
+    let m = WeightedMovingAverage { period: P, index, count, weight: kani::any(), sum: kani::any(), sum_flat: kani::any(), deque: Box::new(a) };
+    let mut c = m.clone();
+    assert!(c.period == m.period && c.index == m.index && c.count == m.count);
+    assert!(c.weight.to_bits() == m.weight.to_bits());
+    assert!(c.sum.to_bits() == m.sum.to_bits());
+    assert!(c.sum_flat.to_bits() == m.sum_flat.to_bits());
+    let mut before = [0u64; P];
+    let mut i = 0;
+    while i < P { assert!(c.deque[i].to_bits() == m.deque[i].to_bits()); before[i] = m.deque[i].to_bits(); i += 1; }
+    assert!(c.deque.as_ptr() != m.deque.as_ptr());
+    let _ = c.next(kani::any::<f64>());
+    let mut j = 0;
+    while j < P { assert!(m.deque[j].to_bits() == before[j]); j += 1; }
+    assert!(m.index == index && m.count == count);
+}
+// @harness vk_wma_clone_deep_p2 props=C05 kind=bounded(period=2) tier=quick
+#[kani::proof] #[kani::unwind(6)] fn vk_wma_clone_deep_p2() { vk_wma_clone_deep::<2>() }
